@@ -75,6 +75,7 @@ ob("O-C08-big-inf", ["C08"], J, "c08_big_cmp_inf", "a big integer of any value u
 ob("O-C09-big-obs", ["C09", "C10"], J, "c09_big_observers", "for every big integer up to 128 bits: is_int; as_isize is Some(value) iff it fits a machine integer; as_pos_usize is (value >= 0, |value|) with zero non-negative, None beyond usize; a big integer that fits agrees with the machine integer of the same value (equal integers behave identically however stored)", [NUM + "Num::is_int", NUM + "Num::as_isize", NUM + "Num::as_pos_usize"], composes_dependency=True)
 ob("O-C09-from-integral", ["C09", "C14"], J, "c09_from_integral", "Num::from_integral / Val::from(usize): a machine integer when the value fits, else the big integer of exactly that value, for every u64, i128 and usize", [NUM + "Num::from_integral", LIB + "Val::from<usize>"], composes_dependency=True)
 ob("O-C09-saturate", ["C09", "C05"], J, "c09_bigint_saturated", "bigint_to_int_saturated (string repetition by a big integer): the value clamped into the machine-integer range, for every big integer up to 128 bits", [LIB + "bigint_to_int_saturated"], composes_dependency=True)
+ob("O-C09-big-mul", ["C09"], J, "c09_big_mul_points", "points: isize::MIN * -1 through the fall-back is 2^63; 3 * big 5, big 5 * -3, big -5 * big -3 are the products (the fall-back closure of * multiplies)", [NUM + "Num::mul", NUM + "int_or_big"], label="point", kind="point", composes_dependency=True, stubs=["_addcarry_u64", "_subborrow_u64"])
 ob("O-C09-big-points", ["C09"], J, "c09_big_points", "points: as_f64 of big 5 / -1, length (absolute value) of big -1 and -2^63-1, 2^70 is beyond every machine-sized observer", [NUM + "Num::as_f64", NUM + "Num::length"], label="point", kind="point", composes_dependency=True)
 ob("O-C09-big-arith", ["C09"], J, "c09_big_arith", "points: MAX+1, MIN-1, MIN+(-1), -MIN, MAX-(-1) take the exact big-integer value through the real fall-back; Int-BigInt, BigInt-Int, Int+BigInt, BigInt+Int, BigInt-BigInt, -BigInt with the operands in the order written (num-bigint executed on concrete operands)", [NUM + "Num::add", NUM + "Num::sub", NUM + "Num::neg", NUM + "int_or_big"], label="point", kind="point", composes_dependency=True, stubs=["_addcarry_u64", "_subborrow_u64"])
 
@@ -141,7 +142,7 @@ ob("O-C04-stack-tail", ["C04"], C, "c04_stack_tailcall_height", "Stack::next on 
 ob("O-C04-stack-growth", ["C04"], C, "c04_stack_growth", "Stack::next growth bound: height after <= height before + number of Continue answers; a one-element stream is gone once it has yielded", [CORE + "stack.rs::Stack::next"], label="bounded", bound="bottom stream of length 0..=2 x the first two callback answers (enumerated concretely)")
 for shape, what in (("index", "`.[k]`"), ("range", "`.[a:b]`")):
     for o, on in (("ess", "without `?`"), ("opt", "with `?`")):
-        ob(f"O-C02-part-{shape}-{o}", ["C02"], C, f"c02_part_{shape}_{o}", f"one path step {what} {on}, for every value and key of an abstract container type that satisfies the ValT coherence between index / values / key_values / range: Part::paths yields the same values in the same order as Part::run, each with the input path extended by exactly one key k such that `v | .[k]` is the yielded value (getpath(path(p)) reproduces p), and Part::update calls the updating accessor of the same kind with the same arguments and the same `?` mark", [CORE + "path.rs::Part::run", CORE + "path.rs::Part::paths", CORE + "path.rs::Part::update"], kind="trait-contract")
+        ob(f"O-C02-part-{shape}-{o}", ["C02"], C, f"c02_part_{shape}_{o}", f"one path step {what} {on}, for every value and key (integer tags within a range that keeps the abstract container's child / slice encoding injective) of an abstract container type that satisfies the ValT coherence between index / values / key_values / range: Part::paths yields the same values in the same order as Part::run, each with the input path extended by exactly one key k such that `v | .[k]` is the yielded value (getpath(path(p)) reproduces p), and Part::update calls the updating accessor of the same kind with the same arguments and the same `?` mark", [CORE + "path.rs::Part::run", CORE + "path.rs::Part::paths", CORE + "path.rs::Part::update"], kind="trait-contract")
 ob("O-C04-stack-loose", ["C04", "C03"], C, "c04_stack_loose_hint", "Stack::next with honest but inexact size hints (0, Some(remaining)): an iterator that has yielded its last element is not kept, whether or not the callback answers with a tail call", [CORE + "stack.rs::Stack::next"], label="bounded", bound="bottom stream of length 0..=2, with / without one tail call (enumerated concretely)")
 ob("O-C11-range-small", ["C11"], C, "c11_range_small", "the native range($from; $to; $by) yields exactly the outputs of its manual definition (`$from | if $by > 0 then while(. < $to; . + $by) elif $by < 0 then while(. > $to; . + $by) else while(. != $to; . + $by) end`), in order, and goes on producing exactly as long as the definition does (zero step: for ever) - exact-integer abstract value type", [CORE + "funs.rs::range"], kind="trait-contract", label="bounded", bound="from, to in -1..=2, by in -1..=1 (48 triples), first 3 outputs and whether a 4th exists; enumerated concretely")
 ob("O-C11-range-steps", ["C11"], C, "c11_range_steps", "the same for steps of 2 and 3, zero steps from equal / unequal bounds, and operands at the ends of the machine-integer range without overflow", [CORE + "funs.rs::range"], kind="trait-contract", label="bounded", bound="7 concrete triples")
@@ -187,7 +188,7 @@ CFG = {
         "C09": {
             "level": "proof",
             "explanation": "Exactness of + - neg % on machine integers against i128 arithmetic for all 2^128 operand pairs, routing of * through checked_mul, fall-back entered with the same operands; result kinds and IEEE values of every mixed / float operation (+ - * /) bit for bit; observers. In those harnesses the fall-back int_or_big is replaced by a ghost-recording stub; its own contract (operands converted and passed in order, result wrapped) is O-C09-iob, and the operator applied by each fall-back closure is pinned at boundary points (O-C09-big-arith).",
-            "not_decided": "BigInt x BigInt arithmetic (num-bigint) beyond the points, which operator the fall-back closures of `*` and of `%` apply (num-bigint products and remainders exhaust CBMC even on concrete operands), float % values (fmod), object +/* merging, array -, string / splitting, Dec operands, Val-level dispatch",
+            "not_decided": "BigInt x BigInt arithmetic (num-bigint) beyond the points, which operator the fall-back closure of `%` applies and big-integer remainders in general (num-bigint's division reaches inline assembly, unsupported by Kani), products with 2^63-sized factors (minutes or out of memory even on concrete operands), float % values (fmod), object +/* merging, array -, string / splitting, Dec operands, Val-level dispatch",
             "assumptions": ["core::isize::checked_mul is the exact product when Some, and the primitive isize % is the truncated remainder (64x64->128 multiplier / divider equivalences are SAT-hard; trusted to core)"],
         },
         "C13": {
